@@ -164,23 +164,30 @@ func main() {
 				}
 				for _, sp := range gd.Specs {
 					vs := sp.(*ast.ValueSpec)
+					if isSyncType(vs.Type) {
+						continue
+					}
 					for vi, n := range vs.Names {
-						if vi >= len(vs.Values) {
+						if n.Name == "_" {
 							continue
 						}
-						call, ok := vs.Values[vi].(*ast.CallExpr)
-						if !ok {
+						switch {
+						case len(vs.Values) == len(vs.Names):
+							if isSyncComposite(vs.Values[vi]) {
+								continue
+							}
+							// restore the initial value by re-evaluating the initialiser
+							var eb bytes.Buffer
+							printer.Fprint(&eb, fset, vs.Values[vi])
+							resetSrc = append(resetSrc, n.Name+" = "+eb.String())
+						case len(vs.Values) == 0 && vs.Type != nil:
+							// no initialiser: the zero value
+							var tb bytes.Buffer
+							printer.Fprint(&tb, fset, vs.Type)
+							resetSrc = append(resetSrc, n.Name+" = *new("+tb.String()+")")
+						default:
 							continue
 						}
-						if fn, ok := call.Fun.(*ast.Ident); !ok || fn.Name != "make" || len(call.Args) == 0 {
-							continue
-						}
-						if _, ok := call.Args[0].(*ast.MapType); !ok {
-							continue
-						}
-						var eb bytes.Buffer
-						printer.Fprint(&eb, fset, vs.Values[vi])
-						resetSrc = append(resetSrc, n.Name+" = "+eb.String())
 						rep.Resets = append(rep.Resets, pkgName(pkgDir)+"."+n.Name)
 					}
 				}
